@@ -444,6 +444,7 @@ SHAPES = [
     ('"', "", 2, 3), ('"\\', "", 2, 3), ('"\\u', "", 3, 5), ('"a', '"', 2, 2),
     ('"""', '"""', 2, 3), ('"""', "", 2, 3), ('"""\\', '"""', 2, 3),
     ("#", "\n{a}", 1, 3), ("a", "", 1, 3), ("..", "", 1, 2), ("{a", "}", 1, 2),
+    ('"\\uAB', '"', 2, 3), ('"\\u0', '"', 2, 3), ('"x\\u00e', '" ', 1, 3),      # escapes whose last digits are symbolic, string closed
 ]
 
 
